@@ -124,6 +124,8 @@ namespace {
          pp << ipr::xpr_stmt(located);
       }
       catch (...) { }
+      // the numbers just written must not have cost the client its stream configuration either
+      if (not(os.flags() == flags and os.fill() == fill and os.width() == width and os.precision() == prec)) o.flags_kept = false;
       std::string all = buf.str();
       o.probe_text = all.substr(before);
       o.probe_decimal = o.probe_text.find(" 10 9 ") != std::string::npos and o.probe_text.find("F8:64:100 ") != std::string::npos;
